@@ -970,6 +970,8 @@ func (p *Parser) ParseCaseStatement() (*ast.CaseStatement, error) {
 			matchExp.Operator = "=="
 			matchExp.Right = exp
 		case token.REGEX_MATCH:
+			// The comment between "case" and "~" leads the operator token, which is not kept in the tree
+			SwapLeadingInfix(p.curToken, stmt.Meta)
 			exp, err := p.ParsePrefixExpression()
 			if err != nil {
 				return nil, errors.WithStack(err)
